@@ -42,8 +42,15 @@ def c19_case(draw):
             marker[0] += 1
             stmts.append({"k": "data", "d": "word", "es": [("num", marker[0])], "marker_for": name})
             for _ in range(draw(st.integers(0, 2))):
-                k = draw(st.integers(0, 3))
-                if k == 0:
+                k = draw(st.integers(0, 6))
+                if k == 4:
+                    stmts.append({"k": "data", "d": draw(st.sampled_from(["word", "dword"])), "es": []})      # the implicit zero item
+                elif k == 5:
+                    stmts.append({"k": "data", "d": "byte", "es": [("num", 1)]})
+                    stmts.append({"k": "even"})
+                elif k == 6:
+                    stmts.append({"k": "even"})
+                elif k == 0:
                     stmts.append({"k": "insn", "mn": "nop", "ops": []})
                 elif k == 1:
                     stmts.append({"k": "blk", "d": "blkw", "e": ("num", draw(st.integers(0, 5)))})
